@@ -1,215 +1,235 @@
 /-
-C01 (part d) — hand-written iterators of read-fonts terminate, with explicit bounds on the number
-of loop trips and of yielded items, and never hit an arithmetic trap.
-Model: Model/ReadIter.lean ⇄ read-fonts/src/tables/{cmap,variations}.rs, array.rs, read.rs.
+C01 (hand-written iterators) — the iterators of read-fonts that walk font-controlled counts
+terminate, with explicit bounds on the number of loop trips and of yielded items, and never hit an
+arithmetic trap.  Model: Model/ReadIter.lean ⇄ read-fonts/src/tables/{cmap,variations}.rs,
+array.rs, read.rs; generic machinery (`run_complete`, `yields_le`, `not_trapped`): Lemmas/ReadIter.lean.
+
+Every theorem is of the form "for every input, the model's fuel-driven run returns `some evs`
+(the fuel always suffices = the loop terminates), `evs.length ≤ bound` (trips round the loop),
+`trapped evs = false`".  The correspondence harness compares `evs` (items and trip counts) with the
+real iterators.
+
+NOT proved here (correspondence only): termination of `TupleDeltaIter` (`tdTrace`).
 -/
-import FontVerif.Model.ReadIter
+import FontVerif.Lemmas.ReadIterBounds
 set_option linter.unusedVariables false
+set_option linter.unusedSimpArgs false
 namespace FontVerif.C01Iter
 open FontVerif FontVerif.ReadIter
 
-/-! ## generic facts about `run` -/
+/-! ## cmap format 4 -/
 
-/-- more fuel never changes a finished run -/
-theorem run_mono {σ α : Type} (step : σ → Out α × σ) :
-    ∀ (f : Nat) (s : σ) (evs : List (Out α)), run step f s = some evs →
-      ∀ k, run step (f + k) s = some evs := by
-  intro f
-  induction f with
-  | zero => intro s evs h; simp [run] at h
-  | succ f ih =>
-    intro s evs h k
-    have e : f + 1 + k = (f + k) + 1 := by omega
-    rw [e]
-    unfold run at h ⊢
-    split at h
-    · simpa using h
-    · simpa using h
-    · rename_i s' hs
-      cases hr : run step f s' with
-      | none => simp [hr] at h
-      | some r => rw [ih s' r hr k]; simpa [hr] using h
-    · rename_i a s' hs
-      cases hr : run step f s' with
-      | none => simp [hr] at h
-      | some r => rw [ih s' r hr k]; simpa [hr] using h
+/-- **`Cmap4Iter` terminates, never traps, and is bounded**: for every format-4 subtable (arrays of
+any lengths holding 16-bit values) `cmap4.iter()` finishes after at most `65536 + segCount` trips
+round the loop of `next` — the fuel `Cmap4.fuel` of the model always suffices —, never reaches the
+`codepoint - start_code` underflow of `lookup_glyph_id`, and yields at most 65536 pairs.  The clamp
+`next.start.max(cur.end)` is what makes this true. -/
+theorem cmap4_iter_bounded (t : Cmap4) (hwf : t.wf = true) :
+    ∃ evs, t.trace = some evs ∧ evs.length ≤ 65536 + t.segCount ∧ trapped evs = false ∧
+      (items evs).length ≤ 65536 := by
+  have hI : ∀ s, Inv4 s → Inv4 (t.step s).2 := fun s hi => (step4_facts t hwf s hi).1
+  obtain ⟨evs, he, hl⟩ := run_complete t.step (mu4 t) Inv4 hI
+    (fun s hi => (step4_facts t hwf s hi).2.2.1) t.fuel t.init (inv4_init t hwf)
+    (by have := mu4_init t hwf; unfold Cmap4.fuel; omega)
+  refine ⟨evs, he, by have := mu4_init t hwf; omega, ?_, ?_⟩
+  · exact not_trapped t.step Inv4 hI (fun s hi => (step4_facts t hwf s hi).2.1) _ _ _ (inv4_init t hwf) he
+  · have := yields_le t.step nu4 Inv4 hI (fun s a hi => (step4_facts t hwf s hi).2.2.2.1 a)
+      (fun s hi => (step4_facts t hwf s hi).2.2.2.2) _ _ _ (inv4_init t hwf) he
+    have h2 := inv4_init t hwf
+    unfold Inv4 at h2
+    unfold nu4 at this
+    omega
 
-/-- **termination from a decreasing measure**: if every trip that does not return `None`
-decreases `μ`, then `μ s + 1` units of fuel suffice and the loop makes at most `μ s` trips before
-the final one. -/
-theorem run_complete {σ α : Type} (step : σ → Out α × σ) (μ : σ → Nat) (Inv : σ → Prop)
-    (hInv : ∀ s, Inv s → Inv (step s).2)
-    (hdec : ∀ s, Inv s → (step s).1 ≠ .done → μ (step s).2 < μ s) :
-    ∀ (f : Nat) (s : σ), Inv s → μ s < f →
-      ∃ evs, run step f s = some evs ∧ evs.length ≤ μ s := by
-  intro f
-  induction f with
-  | zero => intro s _ h; omega
-  | succ f ih =>
-    intro s hi hf
-    have hI := hInv s hi
-    have hD := hdec s hi
-    unfold run
+/-! ## cmap format 12 / 13 -/
+
+/-- **`Cmap12Iter` terminates and is bounded** (with or without `Cmap12IterLimits`): for every list
+of groups the iterator finishes after at most `Σ len + #groups` trips round the loop of `next`
+(`fuel12` always suffices) and yields at most `Σ len` pairs, where `len` is the length of a group's
+codepoint range after the limits were applied (`groupEnd`) — the clamp of an overlapping group's
+start to the previous group's end can only shorten a range. -/
+theorem cmap12_iter_bounded (gs : List Group) (lim : Option Limits) :
+    ∃ evs, trace12 gs lim = some evs ∧ evs.length ≤ groupLenSum gs lim + gs.length ∧
+      trapped evs = false ∧ (items evs).length ≤ groupLenSum gs lim := by
+  have h0 := init12_nu gs lim
+  have hmu : mu12 gs lim (init12 gs lim) ≤ groupLenSum gs lim + gs.length := by
+    unfold mu12; simp only [init12] at h0 ⊢; omega
+  obtain ⟨evs, he, hl⟩ := run_complete (step12 gs lim) (mu12 gs lim) (fun _ => True) (fun _ _ => trivial)
+    (fun s _ => (step12_facts gs lim s).2.1) (fuel12 gs lim) (init12 gs lim) trivial
+    (by unfold fuel12; omega)
+  refine ⟨evs, he, by omega, ?_, ?_⟩
+  · exact not_trapped (step12 gs lim) (fun _ => True) (fun _ _ => trivial)
+      (fun s _ => (step12_facts gs lim s).1) _ _ _ trivial he
+  · have := yields_le (step12 gs lim) (nu12 gs lim) (fun _ => True) (fun _ _ => trivial)
+      (fun s a _ => (step12_facts gs lim s).2.2.1 a) (fun s _ => (step12_facts gs lim s).2.2.2) _ _ _ trivial he
+    omega
+
+/-- with limits every group is cut to at most `min(max_char + 1, glyph_count)` codepoints -/
+theorem groupEnd_limited (g : Group) (l : Limits) :
+    groupEnd g (some l) - g.startChar ≤ min (l.maxChar + 1) l.glyphCount := by
+  unfold groupEnd
+  simp only []
+  omega
+
+/-! ## VarLenArray / ComputedArray -/
+
+/-- **`VarLenArray::iter` terminates within `len` items**: every call of the closure either stops or
+consumes at least one byte of the remaining data, so the iterator makes at most `data.len()` trips
+(and the model's fuel `len + 1` always suffices) — the "time proportional to the input" clause for
+variable-length arrays. -/
+theorem varlen_iter_bounded (k : VarKind) (hk : VarKind.ok k) (d : List Nat) :
+    ∃ evs, varIterTrace k d = some evs ∧ evs.length ≤ d.length ∧ trapped evs = false := by
+  have hdec : ∀ s : List Nat, True → (varIterStep k s).1 ≠ .done → (varIterStep k s).2.length < s.length := by
+    intro s _ hnd
+    unfold varIterStep at hnd ⊢
+    by_cases he : s.isEmpty = true
+    · simp [he] at hnd
+    · simp only [he] at hnd ⊢
+      have hne : s ≠ [] := by intro h; subst h; simp at he
+      cases hl : readLenAt k s 0 with
+      | none => simp [hl] at hnd
+      | some l =>
+        simp only [hl] at hnd ⊢
+        have := readLenAt_pos hk hne hl
+        by_cases hle : l ≤ s.length
+        · simp only [hle, if_true, Bool.false_eq_true, if_false, List.length_drop]
+          have : 0 < s.length := List.length_pos_iff.mpr hne
+          omega
+        · simp [hle] at hnd
+  have hnt : ∀ s : List Nat, True → (varIterStep k s).1 ≠ .trap := by
+    intro s _
+    unfold varIterStep
     split
-    · exact ⟨[], rfl, by simp⟩
-    · rename_i s' hs
-      rw [hs] at hD
-      have := hD (by simp)
-      exact ⟨[.trap], rfl, by simp; omega⟩
-    · rename_i s' hs
-      rw [hs] at hD hI
-      have hlt : μ s' < μ s := hD (by simp)
-      obtain ⟨evs, he, hl⟩ := ih s' hI (by omega)
-      exact ⟨.cont :: evs, by simp [he], by simp only [List.length_cons] at *; omega⟩
-    · rename_i a s' hs
-      rw [hs] at hD hI
-      have hlt : μ s' < μ s := hD (by simp)
-      obtain ⟨evs, he, hl⟩ := ih s' hI (by omega)
-      exact ⟨.yield a :: evs, by simp [he], by simp only [List.length_cons] at *; omega⟩
+    · simp
+    · split
+      · simp
+      · split <;> simp
+  obtain ⟨evs, he, hl⟩ := run_complete (varIterStep k) List.length (fun _ => True) (fun _ _ => trivial)
+    hdec (d.length + 1) d trivial (by omega)
+  exact ⟨evs, he, hl, not_trapped (varIterStep k) (fun _ => True) (fun _ _ => trivial) hnt _ _ _ trivial he⟩
 
-/-- **yield bound from a potential**: if a yielding trip decreases `ν` and a `continue` trip does
-not increase it, at most `ν s` items are produced. -/
-theorem yields_le {σ α : Type} (step : σ → Out α × σ) (ν : σ → Nat) (Inv : σ → Prop)
-    (hInv : ∀ s, Inv s → Inv (step s).2)
-    (hy : ∀ s a, Inv s → (step s).1 = .yield a → ν (step s).2 < ν s)
-    (hc : ∀ s, Inv s → (step s).1 = .cont → ν (step s).2 ≤ ν s) :
-    ∀ (f : Nat) (s : σ) (evs : List (Out α)), Inv s → run step f s = some evs →
-      (items evs).length ≤ ν s := by
-  intro f
-  induction f with
-  | zero => intro s evs _ h; simp [run] at h
-  | succ f ih =>
-    intro s evs hi h
-    have hI := hInv s hi
-    unfold run at h
-    split at h
-    · simp at h; subst h; simp [items]
-    · simp at h; subst h; simp [items]
-    · rename_i s' hs
-      cases hr : run step f s' with
-      | none => simp [hr] at h
-      | some r =>
-        simp [hr] at h; subst h
-        rw [hs] at hI
-        have h1 := ih s' r hI hr
-        have h2 := hc s hi (by rw [hs])
-        rw [hs] at h2
-        have h2 : ν s' ≤ ν s := h2
-        simp only [items]; omega
-    · rename_i a s' hs
-      cases hr : run step f s' with
-      | none => simp [hr] at h
-      | some r =>
-        simp [hr] at h; subst h
-        rw [hs] at hI
-        have h1 := ih s' r hI hr
-        have h2 := hy s a hi (by rw [hs])
-        rw [hs] at h2
-        have h2 : ν s' < ν s := h2
-        simp only [items, List.length_cons]; omega
+/-- **`ComputedArray::iter` terminates after `len` items**, `len = data.len() / item_len` (0 for a
+zero item length, `checked_div`). -/
+theorem computed_iter_bounded (dataLen itemLen : Nat) :
+    ∃ evs, run (computedIterStep dataLen itemLen) (computedLen dataLen itemLen + 1) 0 = some evs ∧
+      evs.length ≤ computedLen dataLen itemLen ∧ computedLen dataLen itemLen ≤ dataLen ∧ trapped evs = false := by
+  let L := computedLen dataLen itemLen
+  have hInv : ∀ s, s ≤ L → (computedIterStep dataLen itemLen s).2 ≤ L := by
+    intro s hs
+    unfold computedIterStep
+    by_cases h : s = computedLen dataLen itemLen
+    · simp only [h, if_true]; exact Nat.le_refl _
+    · simp only [h, if_false]
+      have : s < L := Nat.lt_of_le_of_ne hs h
+      split <;> simp only [] <;> omega
+  have hdec : ∀ s, s ≤ L → (computedIterStep dataLen itemLen s).1 ≠ .done →
+      L - (computedIterStep dataLen itemLen s).2 < L - s := by
+    intro s hs hnd
+    unfold computedIterStep at hnd ⊢
+    by_cases h : s = computedLen dataLen itemLen
+    · simp [h] at hnd
+    · simp only [h, if_false] at hnd ⊢
+      have : s < L := Nat.lt_of_le_of_ne hs h
+      split <;> simp only [] <;> omega
+  have hnt : ∀ s, s ≤ L → (computedIterStep dataLen itemLen s).1 ≠ .trap := by
+    intro s _
+    unfold computedIterStep
+    split
+    · simp
+    · split <;> simp
+  obtain ⟨evs, he, hl⟩ := run_complete (computedIterStep dataLen itemLen) (fun s => L - s) (fun s => s ≤ L)
+    hInv hdec (L + 1) 0 (Nat.zero_le _) (by omega)
+  refine ⟨evs, he, by simpa using hl, ?_, not_trapped _ (fun s => s ≤ L) hInv hnt _ _ _ (Nat.zero_le _) he⟩
+  unfold computedLen
+  split
+  · omega
+  · exact Nat.div_le_self _ _
 
-/-- a property of every reachable state's yields: if `P` holds of each item yielded from a state
-satisfying `Inv`, it holds of all items of a run -/
-theorem items_all {σ α : Type} (step : σ → Out α × σ) (Inv : σ → Prop) (P : α → Prop)
-    (hInv : ∀ s, Inv s → Inv (step s).2)
-    (hP : ∀ s a, Inv s → (step s).1 = .yield a → P a) :
-    ∀ (f : Nat) (s : σ) (evs : List (Out α)), Inv s → run step f s = some evs →
-      ∀ x ∈ items evs, P x := by
-  intro f
-  induction f with
-  | zero => intro s evs _ h; simp [run] at h
-  | succ f ih =>
-    intro s evs hi h
-    have hI := hInv s hi
-    unfold run at h
-    split at h
-    · simp at h; subst h; simp [items]
-    · simp at h; subst h; simp [items]
-    · rename_i s' hs
-      cases hr : run step f s' with
-      | none => simp [hr] at h
-      | some r =>
-        simp [hr] at h; subst h
-        rw [hs] at hI
-        simpa [items] using ih s' r hI hr
-    · rename_i a s' hs
-      cases hr : run step f s' with
-      | none => simp [hr] at h
-      | some r =>
-        simp [hr] at h; subst h
-        rw [hs] at hI
-        have h1 := ih s' r hI hr
-        have h2 := hP s a hi (by rw [hs])
-        intro x hx
-        simp only [items, List.mem_cons] at hx
-        rcases hx with rfl | hx
-        · exact h2
-        · exact h1 x hx
+/-! ## packed point numbers and packed deltas -/
 
-/-- no trap is ever produced if no reachable state's step traps -/
-theorem not_trapped {σ α : Type} (step : σ → Out α × σ) (Inv : σ → Prop)
-    (hInv : ∀ s, Inv s → Inv (step s).2)
-    (hT : ∀ s, Inv s → (step s).1 ≠ .trap) :
-    ∀ (f : Nat) (s : σ) (evs : List (Out α)), Inv s → run step f s = some evs →
-      trapped evs = false := by
-  intro f
-  induction f with
-  | zero => intro s evs _ h; simp [run] at h
-  | succ f ih =>
-    intro s evs hi h
-    have hI := hInv s hi
-    unfold run at h
-    split at h
-    · simp at h; subst h; simp [trapped]
-    · rename_i s' hs
-      exact absurd (by rw [hs]) (hT s hi)
-    · rename_i s' hs
-      cases hr : run step f s' with
-      | none => simp [hr] at h
-      | some r =>
-        simp [hr] at h; subst h
-        rw [hs] at hI
-        simpa [trapped] using ih s' r hI hr
-    · rename_i a s' hs
-      cases hr : run step f s' with
-      | none => simp [hr] at h
-      | some r =>
-        simp [hr] at h; subst h
-        rw [hs] at hI
-        simpa [trapped] using ih s' r hI hr
+/-- **`PackedPointNumbers::total_len` terminates without trapping**: the `while n_seen < n_points`
+loop runs at most `n_points ≤ 32767` times and the `u16` addition `n_seen += count` cannot overflow
+(`n_seen < 32767`, `count ≤ 128`). -/
+theorem packedPoints_totalLen_total (d : List Nat) : ∃ r, totalLen d = some r := by
+  unfold totalLen
+  simp only []
+  split
+  · exact ⟨_, rfl⟩
+  · exact totalLenLoop_some d _ (count_le d) _ _ _ _ (by omega)
 
-/-- `iter.take(k)` agrees with the first `k` items of the full run -/
-theorem runTake_eq {σ α : Type} (step : σ → Out α × σ) :
-    ∀ (f k : Nat) (s : σ) (evs : List (Out α)), run step f s = some evs →
-      runTake step f k s = some ((items evs).take k) := by
-  intro f
-  induction f with
-  | zero => intro k s evs h; simp [run] at h
-  | succ f ih =>
-    intro k s evs h
-    cases k with
-    | zero => simp [runTake]
-    | succ k =>
-      unfold run at h
-      unfold runTake
-      split at h
-      · rename_i s' hs
-        simp at h; subst h; simp [items]
-      · rename_i s' hs
-        simp at h; subst h; simp [items]
-      · rename_i s' hs
-        cases hr : run step f s' with
-        | none => simp [hr] at h
-        | some r =>
-          simp [hr] at h; subst h
-          simp only [items]
-          exact ih (k + 1) s' r hr
-      · rename_i a s' hs
-        cases hr : run step f s' with
-        | none => simp [hr] at h
-        | some r =>
-          simp [hr] at h; subst h
-          simp only [items, List.take_succ_cons]
-          rw [ih k s' r hr]; rfl
+/-- **`PackedPointNumbersIter` terminates, never traps, and yields at most 65535 numbers** (at
+most `count ≤ 32767` when the count is explicit; the "all points" form counts up to `u16::MAX` and
+stops at the `checked_add`). -/
+theorem packedPoints_iter_bounded (d : List Nat) :
+    ∃ evs, ptTrace d = some evs ∧ evs.length ≤ 65535 ∧ trapped evs = false := by
+  have h0 : (ptInit d).seen ≤ (ptInit d).count := by simp [ptInit]
+  have hmu : muPt (ptInit d) ≤ 65535 := by
+    have := count_le d
+    simp only [muPt, ptInit]
+    by_cases h : (countAndCountBytes d).fst = 0 <;> simp [h] <;> omega
+  obtain ⟨evs, he, hl⟩ := run_complete (ptNext d) muPt (fun s => s.seen ≤ s.count)
+    (fun s hi => (ptNext_facts d s hi).1) (fun s hi => (ptNext_facts d s hi).2.2.2) ptFuel (ptInit d) h0
+    (by unfold ptFuel; omega)
+  exact ⟨evs, he, by omega, not_trapped (ptNext d) (fun s => s.seen ≤ s.count)
+    (fun s hi => (ptNext_facts d s hi).1) (fun s hi => (ptNext_facts d s hi).2.2.1) _ _ _ h0 he⟩
+
+/-! packed deltas -/
+
+/-- **`count_all_deltas` terminates** (one control byte per trip, the offset strictly increases) and
+counts at most 64 deltas per byte of data. -/
+theorem countAllDeltas_total (d : List Nat) : ∃ r, countAllDeltas d = some r ∧ r ≤ 64 * d.length := by
+  obtain ⟨r, hr, hb⟩ := countAllLoop_some d (d.length + 1) 0 0 (by omega)
+  exact ⟨r, hr, by omega⟩
+
+/-- **`PackedDeltas::consume_all(data).iter()` terminates within `count_all_deltas(data)` items**,
+which is at most 64 per byte: the `DeltaRunIter` limit strictly decreases on every call of `next`
+that returns `Some`. -/
+theorem packedDeltas_iter_bounded (d : List Nat) :
+    ∃ evs, consumeAllIter d = some evs ∧ evs.length ≤ 64 * d.length ∧ trapped evs = false := by
+  obtain ⟨c, hc, hb⟩ := countAllDeltas_total d
+  unfold consumeAllIter
+  rw [hc]
+  simp only []
+  have h0 : (dlInit (some c)).limit.isSome := by simp [dlInit]
+  obtain ⟨evs, he, hl⟩ := run_complete (dlNext d) muDl (fun s => s.limit.isSome)
+    (fun s hi => (dlNext_facts d s hi).1) (fun s hi => (dlNext_facts d s hi).2.2) (dlFuel d) (dlInit (some c)) h0
+    (by simp [muDl, dlInit, dlFuel]; omega)
+  refine ⟨evs, he, ?_, not_trapped (dlNext d) (fun s => s.limit.isSome)
+    (fun s hi => (dlNext_facts d s hi).1) (fun s hi => (dlNext_facts d s hi).2.1) _ _ _ h0 he⟩
+  simp [muDl, dlInit] at hl
+  omega
+
+/-! ## skip_fast -/
+
+/-- **`DeltaRunIter::skip_fast` terminates**: every trip round its loop reads one control byte at a
+strictly larger cursor position, so `len + 2` trips always suffice. -/
+theorem skipFast_total (d : List Nat) (n : Nat) (s : DlSt) : ∃ r, skipFast d n s = some r :=
+  skipFastLoop_some d n _ _ s (by omega)
+
+/-! ## non-vacuity -/
+
+/-- two overlapping segments `[10,20]`, `[15,30]` (delta 1): the clamp makes the iterator yield each
+of the 21 codepoints once -/
+def exCmap4 : Cmap4 :=
+  { endCode := [20, 30, 65535], startCode := [10, 15, 65535], idDelta := [1, 1, 1],
+    idRangeOffset := [0, 0, 0], glyphIdArray := [] }
+
+example : exCmap4.wf = true := by decide
+
+example : exCmap4.iter.length = 22 := by decide +kernel
+
+example : exCmap4.iter.head? = some (10, 11) := by decide +kernel
+
+example : iter12 [⟨5, 9, 100⟩, ⟨7, 12, 200⟩] none = [(5, 100), (6, 101), (7, 102), (8, 103), (9, 104),
+    (10, 203), (11, 204), (12, 205)] := by decide +kernel
+
+example : groupLenSum [⟨5, 9, 100⟩, ⟨7, 12, 200⟩] none = 11 := by decide
+
+example : VarKind.ok (.plain 1) := by simp [VarKind.ok]
+
+example : (varIterTrace (.plain 1) [2, 65, 66, 0, 1, 67]).map (·.length) = some 3 := by decide +kernel
+
+example : (ptTrace [3, 2, 1, 2, 3]).map items = some [1, 3, 6] := by decide +kernel
+
+example : countAllDeltas [0x03, 1, 2, 3, 4, 0x81] = some 6 := by decide +kernel
 
 end FontVerif.C01Iter
